@@ -67,4 +67,13 @@ inductive TyAtReal (U : UCfg) (x : Var) : Blk → Option Ty → Prop
   | edge {p s : Blk} {o : Option Ty} : TyAtReal U x p o → s ∈ U.succ p →
       TyAtReal U x s (exitTy (U.events p) o x)
 
+
+/-- `LivePath` along real edges only -/
+inductive LivePathReal (U : UCfg) (x : Var) : Blk → Prop
+  | use {b : Blk} : x ∈ U.cfg.used b → LivePathReal U x b
+  | step {b c : Blk} : x ∉ U.cfg.assigned b → c ∈ U.succ b → LivePathReal U x c → LivePathReal U x b
+
+/-- some unreachable block reads `x` (before assigning it) -/
+def DeadRead (U : UCfg) (x : Var) : Prop := ∃ d, ¬ RealReach U d ∧ x ∈ U.cfg.used d
+
 end GuppyVerif.UseDef
